@@ -118,6 +118,9 @@ func (p TransportLayerNack) Marshal() ([]byte, error) {
 
 // Unmarshal decodes the TransportLayerNack from binary
 func (p *TransportLayerNack) Unmarshal(rawPacket []byte) error {
+	// Clear any existing entries
+	p.Nacks = nil
+
 	if len(rawPacket) < (headerLength + ssrcLength) {
 		return errPacketTooShort
 	}
